@@ -6,7 +6,9 @@ from . import hooks, impl, ref_jsonpath as ref, ref_regex
 from .jsonval import canon, h
 
 
-def check_query_case(ctx, ast, doc, text, cls, *, extra=None, env=None, nontrivial=None, keys_prefix="~", sample_p=0.002, model=None):
+def check_query_case(ctx, ast, doc, text, cls, *, extra=None, env=None, nontrivial=None, keys_prefix="~", sample_p=0.002, model=None, impl_doc=None):
+    """impl_doc: the same JSON value built from other Mapping/Sequence types; the model runs on
+    `doc`, the library on `impl_doc`, and nodes are compared by location and plain value."""
     import jsonpath
 
     env = env or jsonpath.DEFAULT_ENV
@@ -31,7 +33,13 @@ def check_query_case(ctx, ast, doc, text, cls, *, extra=None, env=None, nontrivi
     if not comp.ok:
         ctx.violation("legal-spelling-rejected:%s:%s" % (type(comp.exc).__name__, cls), case, {"error": comp.desc(), "text": text})
         return False
-    it = impl.call(lambda: impl.match_records(env.finditer(text, doc, **kw)))
+    target = doc if impl_doc is None else impl_doc
+    it = impl.call(lambda: impl.match_records(env.finditer(text, target, **kw)))
+    if it.ok and impl_doc is not None:
+        from .gen import plain
+
+        it.value = [(p_, plain(o_), path_) for p_, o_, path_ in it.value]
+        model = [(loc, _Val(v)) for loc, v in model]
     if not it.ok:
         ctx.violation("evaluation-raised:%s:%s" % (type(it.exc).__name__, it.site), case, {"error": it.desc(), "text": text})
         return False
@@ -46,6 +54,14 @@ def check_query_case(ctx, ast, doc, text, cls, *, extra=None, env=None, nontrivi
             ctx.violation("nodelist-differs:%s:%s" % (what, cls), case,
                           {"text": text, "diff": diff, "impl": impl.brief_impl(it.value), "model": impl.brief(model)})
             return False
+    if impl_doc is not None:
+        model = [(loc, v.v) for loc, v in model]
+        fa = impl.call(lambda: [__import__("rt.gen", fromlist=["plain"]).plain(x) for x in env.findall(text, target, **kw)])
+        if not fa.ok or impl.values_equal(fa.value, model):
+            ctx.violation("findall-differs:%s" % cls, case, {"text": text, "diff": fa.desc() if not fa.ok else impl.values_equal(fa.value, model)})
+            return False
+        ctx.count("cases_on_other_container_types")
+        return True
     fa = impl.call(env.findall, text, doc, **kw)
     if not fa.ok or impl.values_equal(fa.value, model):
         ctx.violation("findall-differs:%s" % cls, case, {"text": text, "diff": fa.desc() if not fa.ok else impl.values_equal(fa.value, model)})
@@ -62,6 +78,13 @@ def check_query_case(ctx, ast, doc, text, cls, *, extra=None, env=None, nontrivi
     if len(ctx.samples) < 2 or ctx.rng.random() < sample_p:
         ctx.sample({"text": text, "doc": canon(doc)[:200], "nodelist": impl.brief(model)[:4], "class": cls})
     return True
+
+
+class _Val:
+    """Wraps a model value so nodes_equal compares by strict value, not identity."""
+
+    def __init__(self, v):
+        self.v = v
 
 
 _ENVS = []
